@@ -339,7 +339,7 @@ func v01DrawCase(rt *rapid.T) *v01Case {
 				continue
 			}
 			k := rapid.SampledFrom([]int{1, 1, 1, 2}).Draw(rt, fmt.Sprintf("g%d/n", gi))
-			for j := 0; j < k && len(c.Conns) < 5; j++ {
+			for j := 0; j < k && (j == 0 || len(c.Conns) < 5); j++ { // every generation has at least one connection
 				pAccept := 3 // of 10
 				if gi == 0 && j == 0 {
 					pAccept = 8
